@@ -9,7 +9,13 @@ the functions a case needs on the app of that case.
 Observations are collected in the module-level registry REG (one case runs at a time; the thread
 runner's worker threads live in this process and see the same object): one entry per BODY EXECUTION
 with the invocation id, the per-invocation execution number, invocation.num_retries as seen by the
-body, the sub-invocations it launched, and how the execution ended.
+body, the sub-invocations it launched (flat list `launched`, and per statement in `stmts`), the log index of
+the execution whose body called it inline (`parent`; only sync mode nests bodies in one thread), and how the
+execution ended.
+
+Node ids name ARGUMENT SETS: the generator may repeat a node (same id, same spec) inside one group or one
+body - the same call made twice.  The elements of a parallelized list are spelled in the three forms
+parallelize accepts (dict / tuple / Arguments), by position.
 """
 from __future__ import annotations
 
@@ -43,13 +49,24 @@ class Registry:
         self.dpar: dict[tuple[int, int], object] = {}      # (mr, rf) -> direct-task wrapper with parallel_func
         self.task_of: dict[str, object] = {}               # function name -> Task (to find the running invocation)
         self.launched: list = []                           # invocation objects created by bodies
+        self.tls = threading.local()                       # .cur = log index of the execution running in this thread
 
 
 REG: Registry | None = None
 
 
+def spell(task, j: int, member: dict):
+    """the j-th element of a parallelized list, in one of the accepted spellings"""
+    if task is None or j % 3 == 0:
+        return {"spec": member}
+    if j % 3 == 1:
+        return (member,)
+    return task.args(spec=member)
+
+
 def _run_stmt(reg: Registry, st: list, entry: dict) -> int:
     op = st[0]
+    entry["stmts"].append({"op": op, "ids": [st[1]["id"]] if op in ("call", "fire", "direct") else [m["id"] for m in st[1]]})
     if op in ("call", "fire"):
         c = st[1]
         inv = reg.plain[(c["mr"], c["rf"])](spec=c)
@@ -65,7 +82,8 @@ def _run_stmt(reg: Registry, st: list, entry: dict) -> int:
     if op == "group":
         members = st[1]
         c0 = members[0]
-        group = reg.plain[(c0["mr"], c0["rf"])].parallelize([{"spec": m} for m in members])
+        task = reg.plain[(c0["mr"], c0["rf"])]
+        group = task.parallelize([spell(task, j, m) for j, m in enumerate(members)])
         reg.launched.extend(group.invocations)
         entry["launched"].extend(m["id"] for m in members)
         return sum(group.results)         # order-insensitive aggregation
@@ -85,8 +103,13 @@ def _body(fname: str, spec: dict):
     with reg.lock:
         k = reg.counter[inv_id] = reg.counter.get(inv_id, 0) + 1
     entry = {"node": spec["id"], "inv": inv_id, "attempt": k, "retries_seen": inv.num_retries,
-             "launched": [], "end": None, "mode": type(inv).__name__}
-    reg.log.append(entry)
+             "launched": [], "stmts": [], "end": None, "mode": type(inv).__name__,
+             "parent": getattr(reg.tls, "cur", None)}
+    with reg.lock:
+        entry["idx"] = len(reg.log)
+        reg.log.append(entry)
+    outer = entry["parent"]
+    reg.tls.cur = entry["idx"]
     try:
         script = spec["script"]
         act = script[k - 1] if k - 1 < len(script) else spec["dflt"]
@@ -102,10 +125,12 @@ def _body(fname: str, spec: dict):
     except Exception as ex:
         entry["end"] = ["exc", type(ex).__name__, list(ex.args)]
         raise
+    finally:
+        reg.tls.cur = outer
 
 
 def _parallel_func(args: dict):
-    return [{"spec": m} for m in args["spec"]["par"]]
+    return [spell(None, 0, m) if j % 2 == 0 else (m,) for j, m in enumerate(args["spec"]["par"])]
 
 
 def _aggregate(results) -> int:
